@@ -54,7 +54,7 @@ def run(pm, ctx):
             for t in [x for x in ast.walk(g_) if isinstance(x, (ast.If, ast.IfExp))]:
                 for c in ast.walk(t.test):
                     if isinstance(c, ast.Compare) and any(isinstance(o, (ast.Is, ast.IsNot)) for o in c.ops) and \
-                            any(isinstance(x, ast.Attribute) and isinstance(x.value, ast.Name) and x.value.id == selfn for x in ast.walk(c)) and \
+                            any(isinstance(x, ast.Name) and x.id == selfn for x in ast.walk(c)) and \
                             not any(isinstance(x, ast.Constant) and x.value is None for x in [c.left] + c.comparators):
                         keyed.append(("identity", c))
                     if isinstance(c, ast.Compare) and any(isinstance(x, ast.Attribute) and x.attr == "shape" for x in ast.walk(c)) and \
